@@ -142,7 +142,14 @@ func TestVerifC12(t *testing.T) {
 			emitted := 0
 			wrapped := false
 			for g := 0; g < ngroups; g++ {
-				grp, msg := makeGroup(enc, sizeVector(pick(rng, sizeKinds), d, rng, maxPayload), rng, fecNoSkip)
+				// one group in four is sent after a pause: the encoder skips its parity
+				// and advances the ids past it (also in the last group before the wrap)
+				rto := uint32(fecNoSkip)
+				if rng.chance(0.25) {
+					rto = 0
+					rec.count("fec_wrap_groups_with_skipped_parity", 1)
+				}
+				grp, msg := makeGroup(enc, sizeVector(pick(rng, sizeKinds), d, rng, maxPayload), rng, rto)
 				if msg != "" {
 					rec.violation("C12 FEC encoder: malformed group near the id wrap", msg, desc)
 					return
@@ -151,8 +158,11 @@ func TestVerifC12(t *testing.T) {
 					wrapped = true
 				}
 				o := newGroupOracle(&grp)
-				order := rng.perm(n)
+				order := rng.perm(len(grp.pkts))
 				drop := rng.intn(p + 1)
+				if len(grp.pkts) < n {
+					drop = rng.intn(2) // no parity: at most one packet lost (not recoverable, must not confuse the decoder)
+				}
 				for _, i := range order[drop:] {
 					if key, detail := o.feed(dec, i, true); key != "" {
 						rec.violation("C12 [FEC across the id wrap] "+key, detail, desc)
